@@ -25,7 +25,7 @@ func init() {
 			"switch happened; distinct = distinct scheduler trace hashes (sequence of (goroutine, site, kind)) among those",
 		Gen: func(rt *rapid.T, tier string) any {
 			return genPipe(rt, tier, pipeGenOpts{algos: []string{"compare", "compareW", "fbp", "tbe"}, faults: true, minTax: 4, maxTax: 14, maxTrees: 10, rootedRef: true,
-				maxFaults: 5, zeroTrees: true})
+				maxFaults: 5, zeroTrees: true, nexusFeed: true})
 		},
 		New:  func() any { return &PipeCase{} },
 		Exec: execC11,
@@ -99,6 +99,17 @@ func execC11(t *testing.T, c any, o *Outcome) {
 		if fkind != "" {
 			for name, pr := range map[string]*PipeResult{"1 thread": base, fmt.Sprint(pc.Cpus, " threads"): got} {
 				r, ok := pr.Recs[fpos]
+				if pc.Nexus && pc.Feed == "reader" {
+					// a Nexus document is parsed as a whole: a malformed tree anywhere gives one error record (id 0) and no tree
+					anyErr := false
+					for _, x := range pr.Recs {
+						anyErr = anyErr || x.Err != ""
+					}
+					if !anyErr {
+						o.Fail("error-lost:"+pc.Algo+":"+fkind, "%s (%s, Nexus input): a %s tree at position %d but no record carries an error", pc.Algo, name, fkind, fpos)
+					}
+					continue
+				}
 				if !ok {
 					o.Fail("error-lost:"+pc.Algo+":"+fkind, "%s (%s): no record for the %s tree at position %d", pc.Algo, name, fkind, fpos)
 				} else if r.Err == "" {
@@ -189,6 +200,7 @@ type CliCase struct {
 	Threads int       `json:"threads"`
 	Tips    bool      `json:"tips,omitempty"`
 	Binary  bool      `json:"binary,omitempty"`
+	RF      bool      `json:"rf,omitempty"`
 	Sched   SchedCase `json:"sched"`
 }
 
@@ -204,7 +216,8 @@ func init() {
 			pc := genPipe(rt, tier, pipeGenOpts{algos: []string{"compare"}, faults: true, faultKinds: []string{"foreign", "missing", "extra", "duptip", "malformed"},
 				minTax: 4, maxTax: 12, maxTrees: 8, rootedRef: true, maxFaults: 5, zeroTrees: true})
 			return &CliCase{Cmd: rapid.SampledFrom([]string{"compare", "compare-weighted", "fbp", "tbe", "tbe-taxa"}).Draw(rt, "cmd"), Ref: pc.Ref, Recs: pc.Recs,
-				Threads: rapid.SampledFrom([]int{2, 3, 4, 8}).Draw(rt, "threads"), Tips: pc.Tips, Binary: rapid.IntRange(0, 3).Draw(rt, "binary") == 0, Sched: pc.Sched}
+				Threads: rapid.SampledFrom([]int{2, 3, 4, 8}).Draw(rt, "threads"), Tips: pc.Tips, Binary: rapid.IntRange(0, 3).Draw(rt, "binary") == 0,
+				RF: rapid.IntRange(0, 3).Draw(rt, "rf") == 0, Sched: pc.Sched}
 		},
 		New:       func() any { return &CliCase{} },
 		Exec:      execC11Cli,
@@ -240,6 +253,8 @@ func execC11Cli(t *testing.T, cc any, o *Outcome) {
 		}
 		if c.Binary {
 			tpl.args = append(tpl.args, "--binary")
+		} else if c.RF && c.Cmd == "compare" {
+			tpl.args = append(tpl.args, "--rf") // prints one number per tree, without its id: compared as a multiset of lines
 		}
 	case "fbp":
 		tpl.args = []string{"compute", "support", "fbp", "-i", "@ref.nw", "-b", "@trees.nw", "-t", "@T", "-l", "@X1", "--silent", "--seed", "1", "-o", "@OUT"}
